@@ -293,7 +293,7 @@ def spy_on(inner, mon):
 
 class ScriptBackend(TrialBackend):
     def __init__(self, sym, mon, R=2, K=2, J=1, max_fail=0, Z=1, P=12, checkpointing=True,
-                 delete_checkpoints=False, value_fn=None, metric="m", resource="r", R_of=None):
+                 delete_checkpoints=False, value_fn=None, metric="m", resource="r", R_of=None, stop_lag=0):
         super().__init__(delete_checkpoints=delete_checkpoints)
         self.sym, self.mon = sym, mon
         self.R, self.K, self.J, self.Z, self.P = R, K, J, Z, P
@@ -315,10 +315,14 @@ class ScriptBackend(TrialBackend):
         self.nfail = 0
         self.exited = {}      # tid -> True once the worker process of the current run has ended
         self.tuner = None
+        self.stop_lag = stop_lag      # a stopped job stays busy ("Stopping") for up to this many further polls
+        self.stop_ticks = {}
+        self.seen_failed = set()      # trials whose failure was shown to the loop by a poll
 
     # ---- helpers ----------------------------------------------------------------------------
     def in_progress(self):
-        return [t for t, s in self.wst.items() if s == Status.in_progress]
+        busy = (Status.in_progress, Status.stopping) if self.stop_lag else (Status.in_progress,)
+        return [t for t, s in self.wst.items() if s in busy]
 
     def reports_of_run(self, tid, run):
         return self.seq.get((tid, run), 0)
@@ -353,7 +357,14 @@ class ScriptBackend(TrialBackend):
             self.sym.goal("poll-bound-hit")
             self.sym.assume(False)
         progress = False
-        for t in sorted(self.in_progress()):
+        for t in sorted(self.stop_ticks):
+            if self.wst.get(t) == Status.stopping:
+                self.stop_ticks[t] -= 1
+                if self.stop_ticks[t] <= 0:
+                    self.wst[t] = Status.stopped
+                    self.sym.event("job of t%d has shut down" % t)
+                progress = True
+        for t in sorted(t_ for t_, s_ in self.wst.items() if s_ == Status.in_progress):
             if self.exited.get(t):
                 continue
             Rt = self.final_level(t)
@@ -435,7 +446,14 @@ class ScriptBackend(TrialBackend):
     def _stop_trial(self, trial_id, result):
         self.mon.b_stop(trial_id)
         self._late(trial_id)
-        self.wst[trial_id] = Status.stopped
+        # the job shuts down at once, or stays busy for stop_lag further polls
+        lag = (0, self.stop_lag)[self.sym.choice("stoplag_%d" % trial_id, 2)] if (self.stop_lag and not self.mon.tuning_over) else 0
+        if lag:
+            self.wst[trial_id] = Status.stopping
+            self.stop_ticks[trial_id] = lag
+            self.sym.goal("stopping-job-still-busy")
+        else:
+            self.wst[trial_id] = Status.stopped
         self.exited[trial_id] = True
 
     def _resume_trial(self, trial_id):
@@ -446,7 +464,11 @@ class ScriptBackend(TrialBackend):
     def _all_trial_results(self, trial_ids):
         out = []
         for t in trial_ids:
-            tr = self._trial_dict[t]
+            tr = self._trial_dict.get(t)
+            if tr is None:
+                continue        # start_trial was interrupted (a monitor raised inside _schedule): keep the original exception
+            if self.wst[t] == Status.failed and not self.mon.tuning_over:
+                self.seen_failed.add(t)
             out.append(TrialResult(trial_id=t, config=tr.config, creation_time=tr.creation_time,
                                    status=self.wst[t], metrics=list(self.log[t])))
         return out
@@ -473,7 +495,7 @@ class ScriptBackend(TrialBackend):
             self.deleted_log.append((trial_id, self.mon.state.get(trial_id), self.mon.tuning_over))
 
     def busy_trial_ids(self):
-        return [(t, Status.in_progress) for t in self.in_progress()]
+        return [(t, self.wst[t]) for t in self.in_progress()]
 
     def stdout(self, trial_id):
         return []
